@@ -19,12 +19,15 @@ DOFS3 = ('u', 'v', 'w')
 
 
 class PanelRef:
-    def __init__(self, a, b, m, n, flags, r=None, dofs=DOFS3, y1=None, y2=None, ycuts=None):
+    def __init__(self, a, b, m, n, flags, r=None, dofs=DOFS3, y1=None, y2=None, ycuts=None, alpharad=0.0, sigma=-1.0, twist=1.0):
         """flags: dict like {'u1tx':..} (24 entries; missing -> package defaults SSSS).
         y-subinterval given either as floats (y1,y2) or exact fractions of b (ycuts=(Fr,Fr))."""
         self.a, self.b, self.m, self.n, self.r = float(a), float(b), m, n, r
         self.dofs = dofs
         self.nd = len(dofs)
+        self.twist = twist
+        self.alpharad, self.sigma = alpharad, sigma     # cone: r(x) = r + sigma*sin(alpha)*x (package geometry: sigma=-1)
+        self.Xscale = None
         self.flags = dict(default_flags())
         self.flags.update(flags or {})
         self.size = self.nd * m * n
@@ -34,14 +37,19 @@ class PanelRef:
         self.X = {k: v[:m, :m] for k, v in T.items()}
         if ycuts is not None:
             e1, e2 = 2 * Fr(ycuts[0]) - 1, 2 * Fr(ycuts[1]) - 1
-            self.Y = {(da, db): rb.table(da, db, e1, e2)[0][:n, :n] for da in range(3) for db in range(3)}
+            tb = {(da, db): rb.table(da, db, e1, e2) for da in range(3) for db in range(3)}
+            self.Y = {k: v[0][:n, :n] for k, v in tb.items()}
+            self.Yscale = {k: v[1][:n, :n] for k, v in tb.items()}      # conditioning of the sub-interval evaluation
             self.eta1, self.eta2 = float(e1), float(e2)
         elif y1 is not None and y2 is not None:
             e1, e2 = 2 * y1 / self.b - 1, 2 * y2 / self.b - 1
-            self.Y = {(da, db): rb.table(da, db, Fr(e1), Fr(e2))[0][:n, :n] for da in range(3) for db in range(3)}
+            tb = {(da, db): rb.table(da, db, Fr(e1), Fr(e2)) for da in range(3) for db in range(3)}
+            self.Y = {k: v[0][:n, :n] for k, v in tb.items()}
+            self.Yscale = {k: v[1][:n, :n] for k, v in tb.items()}
             self.eta1, self.eta2 = e1, e2
         else:
             self.Y = {k: v[:n, :n] for k, v in T.items()}
+            self.Yscale = {k: np.abs(v) for k, v in self.Y.items()}
             self.eta1, self.eta2 = -1.0, 1.0
 
     # ------------------------------------------------------------------ generic separable bilinear form
@@ -70,8 +78,31 @@ class PanelRef:
              'v': [(1, 2 / b, 0, 1), (2, 2 / a, 1, 0)],
              'w': [(3, -4 / a ** 2, 2, 0), (4, -4 / b ** 2, 0, 2), (5, -2 * 4 / (a * b), 1, 1)]}
         if r:
-            t['w'] = t['w'] + [(1, 1.0 / r, 0, 0)]
+            t['w'] = t['w'] + [(1, np.cos(self.alpharad) / r, 0, 0)]
+        if r and self.alpharad:
+            sg = self.sigma * np.sin(self.alpharad) / r
+            t['u'] = t['u'] + [(1, sg, 0, 0)]
+            t['v'] = t['v'] + [(2, -sg, 0, 0)]
+            t['w'] = t['w'] + [(4, -sg * 2 / a, 1, 0), (5, self.twist * sg * 2 / b, 0, 1)]
         return {d: t[d] for d in self.dofs}
+
+    def sections(self, nsec=41, rbot=None, bbot=None):
+        """Piecewise-constant-radius approximation used by the conical kernels: per section the radius and
+        the width are frozen at the section mid-point.  The *geometry* r = rbot - sin(alpha) x is the package's."""
+        tabs = rb.section_tables(nsec)
+        rbot = self.r if rbot is None else rbot
+        bbot = self.b if bbot is None else bbot
+        out = []
+        for k in range(nsec):
+            xm = self.a * (k + 0.5) / nsec
+            sec = PanelRef.__new__(PanelRef)
+            sec.__dict__.update(self.__dict__)
+            sec.r = rbot - np.sin(self.alpharad) * xm
+            sec.b = sec.r * bbot / rbot
+            sec.X = {key: v[0][k][:self.m, :self.m] for key, v in tabs.items()}
+            sec.Xscale = {key: v[1][k][:self.m, :self.m] for key, v in tabs.items()}
+            out.append(sec)
+        return out
 
     def k0(self, F):
         F = np.asarray(F, dtype=float)
@@ -98,11 +129,20 @@ class PanelRef:
                         terms.append((dA, dB, jac * F[p, q] * abs(sA * sB), dxA, dxB, dyA, dyB))
         sv = PanelRef.__new__(PanelRef)
         sv.__dict__.update(self.__dict__)
-        sv.X = {k: np.abs(v) for k, v in self.X.items()}
-        sv.Y = {k: np.abs(v) for k, v in self.Y.items()}
+        sv.X = dict(self.Xscale) if self.Xscale is not None else {k: np.abs(v) for k, v in self.X.items()}
+        sv.Y = dict(self.Yscale)
         sv.fx = {k: np.abs(v) for k, v in self.fx.items()}
         sv.fy = {k: np.abs(v) for k, v in self.fy.items()}
         return sv.bilinear(terms)
+
+    def scale_of(self, terms):
+        sv = PanelRef.__new__(PanelRef)
+        sv.__dict__.update(self.__dict__)
+        sv.X = dict(self.Xscale) if self.Xscale is not None else {k: np.abs(v) for k, v in self.X.items()}
+        sv.Y = dict(self.Yscale)
+        sv.fx = {k: np.abs(v) for k, v in self.fx.items()}
+        sv.fy = {k: np.abs(v) for k, v in self.fy.items()}
+        return sv.bilinear([(t[0], t[1], abs(t[2])) + tuple(t[3:]) for t in terms])
 
     def kG(self, Nxx, Nyy, Nxy):
         a, b = self.a, self.b
